@@ -1089,6 +1089,47 @@ def f11(ctx):
                  'not threaded through the running result'), mod.loc(fn))
 
 
+    # every early return accounts for every operand: a shortcut taken when there are exactly K
+    # rests hands on rests[0] .. rests[K-1]; with no rests the tree alone is returned
+    cfg = pycfg(fn)
+    tree_p = _pos_params(fn)[0].arg if _pos_params(fn) else None
+    problems = []
+    early = [r for r in walk(fn) if isinstance(r, ast.Return)][:-1]
+    for r in early:
+        rn = cfg.ast_to_node.get(id(r))
+        # the guard: the dominating test(s) of `rests` / `len(rests)`
+        k = None
+        for cn in cfg.nodes:
+            if cn.kind != 'cond' or cn.ast is None or not cfg.dominates(cn.idx, rn):
+                continue
+            t_reach = cfg.reachable([w for (w, lab) in cfg.succ[cn.idx] if lab is True], skip_back=False)
+            f_reach = cfg.reachable([w for (w, lab) in cfg.succ[cn.idx] if lab is False], skip_back=False)
+            if (rn in t_reach) == (rn in f_reach):
+                continue
+            outcome = rn in t_reach
+            e = cn.ast
+            if isinstance(e, ast.Name) and e.id == rests:
+                k = 0 if outcome is False else k
+            m = pmatch(e, 'len(?r) == ??k', {'r': rests}) if isinstance(e, ast.expr) else None
+            if m is not None and outcome is True and isinstance(e.comparators[0], ast.Constant):
+                k = e.comparators[0].value
+        used = sorted({n.slice.value for n in walk(r) if isinstance(n, ast.Subscript) and
+                       isinstance(n.value, ast.Name) and n.value.id == rests and
+                       isinstance(n.slice, ast.Constant)})
+        whole = any(isinstance(n, ast.Starred) and is_name(n.value, rests) for n in walk(r))
+        if k is None:
+            problems.append('the early return at line %d is not under a test of the number of operands' % r.lineno)
+        elif not whole and used != list(range(k)):
+            problems.append('the early return at line %d is taken for %d further operand(s) but hands on %s'
+                            % (r.lineno, k, ['%s[%d]' % (rests, i) for i in used] or 'none of them'))
+        elif tree_p and tree_p not in names_in(r):
+            problems.append('the early return at line %d drops the first operand' % r.lineno)
+    ctx.check('_tree_broadcast_common/shortcuts-keep-every-operand', not problems,
+              'each early return of _tree_broadcast_common hands on exactly the operands its guard counts',
+              '_tree_broadcast_common: %s: operands are lost (or invented) for that number of trees'
+              % '; '.join(problems), mod.loc(fn))
+
+
 # ---------------------------------------------------------------------------------------------
 # re-implemented in Python on purpose; T6 compares their formulas with the engine's
 F12_TWINS = {'treespec_is_leaf', 'treespec_is_strict_leaf', 'treespec_is_one_level'}
